@@ -22,27 +22,30 @@ type Stats struct {
 	Seed     uint64 `json:"seed"`
 	Worker   int    `json:"worker"`
 
-	Plans       int64             `json:"plans"`      // generated plans (before expansion)
-	Cases       int64             `json:"cases"`      // concrete plans checked
-	Execs       int64             `json:"execs"`      // executions of the system under test
-	Skipped     int64             `json:"skipped"`    // cases skipped (query rejected by the parser)
-	SimNs       int64             `json:"sim_ns"`     // fake-clock time covered
-	Transport   int64             `json:"transport"`  // transport events simulated
-	WallNs      int64             `json:"wall_ns"`    // wall time spent
-	ByConfig    map[string]int64  `json:"by_config"`  // cases per configuration
-	Probes      map[string]int64  `json:"probes"`     // reach probes
-	Planned     map[string]int64  `json:"planned"`    // faults planned per kind
-	Fired       map[string]int64  `json:"fired"`      // faults that actually fired per kind
-	Observed    map[string]int64  `json:"observed"`   // faults the code under test was told about
-	Signatures  []uint64          `json:"signatures"` // distinct non-trivial case signatures
-	Schedules   []uint64          `json:"schedules"`  // distinct (batch size, permutation) pairs
-	LogHashes   []uint64          `json:"log_hashes"` // distinct event-log hashes (interleavings/states reached)
-	Samples     []*Plan           `json:"samples"`    // a few of the plans actually run
-	Violations  []*Plan           `json:"violations"` // minimised failing plans
-	Known       []string          `json:"known"`      // known findings that were reproduced
-	ReplayFiles []string          `json:"replay_files"`
-	HarnessErr  string            `json:"harness_err,omitempty"`
-	RunHashes   map[string]string `json:"run_hashes,omitempty"` // run index -> event log hash (determinism self-test)
+	Plans     int64 `json:"plans"`     // generated plans (before expansion)
+	Cases     int64 `json:"cases"`     // concrete plans checked
+	Execs     int64 `json:"execs"`     // executions of the system under test
+	Skipped   int64 `json:"skipped"`   // cases skipped (query rejected by the parser)
+	SimNs     int64 `json:"sim_ns"`    // fake-clock time covered
+	Transport int64 `json:"transport"` // transport events simulated
+	WallNs    int64 `json:"wall_ns"`   // wall time spent
+	// the plan (all of its cases) that took longest, and how long
+	SlowestPlanMs  int64             `json:"slowest_plan_ms"`
+	SlowestPlanRun uint64            `json:"slowest_plan_run"`
+	ByConfig       map[string]int64  `json:"by_config"`  // cases per configuration
+	Probes         map[string]int64  `json:"probes"`     // reach probes
+	Planned        map[string]int64  `json:"planned"`    // faults planned per kind
+	Fired          map[string]int64  `json:"fired"`      // faults that actually fired per kind
+	Observed       map[string]int64  `json:"observed"`   // faults the code under test was told about
+	Signatures     []uint64          `json:"signatures"` // distinct non-trivial case signatures
+	Schedules      []uint64          `json:"schedules"`  // distinct (batch size, permutation) pairs
+	LogHashes      []uint64          `json:"log_hashes"` // distinct event-log hashes (interleavings/states reached)
+	Samples        []*Plan           `json:"samples"`    // a few of the plans actually run
+	Violations     []*Plan           `json:"violations"` // minimised failing plans
+	Known          []string          `json:"known"`      // known findings that were reproduced
+	ReplayFiles    []string          `json:"replay_files"`
+	HarnessErr     string            `json:"harness_err,omitempty"`
+	RunHashes      map[string]string `json:"run_hashes,omitempty"` // run index -> event log hash (determinism self-test)
 
 	wantHashes bool
 	caseHash   uint64
@@ -308,6 +311,8 @@ func Main(t *testing.T) {
 	}()
 
 	knownSeen := map[string]bool{}
+	var prevStarted time.Time
+	var prevRun uint64
 	for i := int64(0); i < maxRuns; i++ {
 		if deadline > 0 && i%8 == 0 && time.Now().Unix() >= deadline {
 			break
@@ -316,6 +321,13 @@ func Main(t *testing.T) {
 		if mark != nil {
 			_, _ = mark.WriteAt([]byte(fmt.Sprintf("%020d\n", run)), 0)
 		}
+		planStarted := time.Now()
+		if i > 0 {
+			if ms := planStarted.Sub(prevStarted).Milliseconds(); ms > st.SlowestPlanMs {
+				st.SlowestPlanMs, st.SlowestPlanRun = ms, prevRun
+			}
+		}
+		prevStarted, prevRun = planStarted, run
 		plan := P.Gen(planRng(st.Seed, prop, run), run, st.Tier)
 		plan.Property = prop
 		plan.Seed = st.Seed
